@@ -124,7 +124,21 @@ func (r *TypeReg) sortOf1(t types.Type, key string) Sort {
 			ss.Fields = append(ss.Fields, FieldSort{Name: f.Name(), Acc: fmt.Sprintf("%s!%s", name[2:], f.Name()), Sort: fs, Type: f.Type()})
 		}
 		return srt
-	case *types.Array, *types.Tuple, *types.TypeParam:
+	case *types.Array:
+		// small fixed-size arrays are records with one field per element
+		if u.Len() <= 16 {
+			name := "A!" + sanitize(key)
+			srt := Sort(name)
+			ss := &StructSort{Sort: srt, Ctor: "mk!" + name[2:], Type: t}
+			r.structs[srt] = ss
+			r.byType[key] = srt
+			es := r.sortOf(u.Elem())
+			for i := int64(0); i < u.Len(); i++ {
+				ss.Fields = append(ss.Fields, FieldSort{Name: fmt.Sprintf("e%d", i), Acc: fmt.Sprintf("%s!e%d", name[2:], i), Sort: es, Type: u.Elem()})
+			}
+			return srt
+		}
+	case *types.Tuple, *types.TypeParam:
 	}
 	srt := Sort("U!" + sanitize(key))
 	r.opaque[srt] = true
@@ -374,4 +388,15 @@ func (r *TypeReg) emitSorts(usedSorts map[Sort]bool, usedCtors map[string]bool) 
 		out = append(out, fmt.Sprintf("(declare-datatypes (%s) (%s))", strings.Join(decl, " "), strings.Join(defs, " ")))
 	}
 	return out
+}
+
+// aggFieldType: the type of component i of a struct or small array type.
+func aggFieldType(t types.Type, i int) types.Type {
+	switch u := t.Underlying().(type) {
+	case *types.Struct:
+		return u.Field(i).Type()
+	case *types.Array:
+		return u.Elem()
+	}
+	panic("aggFieldType on " + t.String())
 }
